@@ -29,7 +29,7 @@ __CPROVER_ensures(self->canonical_g && BITS(P) >= self->F_size && BITS(Q) >= sel
 /* not canonical: no hash is computed */
 __CPROVER_ensures(!self->canonical_g ==> hash_n == hash_base)
 //@ loop 1
-__CPROVER_assigns(MONITOR_STATE, V(foo), V(g2), U.acc, U.nput, U.okv)
+__CPROVER_assigns(MONITOR_STATE, V(foo), V(g2), U.acc, U.nput, U.okv, U.okev)
 __CPROVER_loop_invariant(hash_n >= hash_base && V(bar) == gP - 1 && deriv_ok)
 __CPROVER_loop_invariant(hash_n == hash_base ==> U.acc == seed_acc)
 __CPROVER_loop_invariant(hash_n > hash_base ==> U.acc == expect_next && !last_cand_passes)
